@@ -19,11 +19,22 @@ def drivers(tier):
     if tier == 'quick':
         d['coarse-fixpoint'] = (WorldDriver(
             'coarse-fixpoint', own='Q', ids=(1, 2), explicit_ids=(1, 2),
-            max_autos=1, shapes=SHAPES), {})
+            max_autos=1, shapes=SHAPES),
+            dict(max_states=250000, time_budget=240))
         d['fine-depth'] = (WorldDriver(
             'fine-depth', own='Q', ids=(1, 2), explicit_ids=(1, 2),
             max_autos=1, coarse=False), dict(max_depth=3))
+        # handler components whose lifecycle callbacks issue every query
+        d['queries-from-callbacks'] = (WorldDriver(
+            'queries-from-callbacks', own='Q', types=('A', 'H'), ids=(1, 2),
+            explicit_ids=(1,), max_autos=1,
+            shapes=((), ('A',), ('H',), ('A', 'H'))),
+            dict(max_states=250000, time_budget=240))
     else:
+        d['queries-from-callbacks'] = (WorldDriver(
+            'queries-from-callbacks', own='Q', types=('A', 'B', 'H'),
+            ids=(1, 2), explicit_ids=(1, 2), max_autos=1,
+            shapes=((), ('A',), ('H',), ('A', 'H'), ('B', 'H'))), {})
         d['coarse-fixpoint'] = (WorldDriver(
             'coarse-fixpoint', own='Q', ids=(1, 2, 3), explicit_ids=(1, 2),
             max_autos=2), {})
